@@ -89,8 +89,44 @@ class HMap(dict):
     """a HashMap / BTreeMap value (a plain dict is a struct)"""
 
 
+INT_BITS = {"u8": (8, False), "u16": (16, False), "u32": (32, False), "u64": (64, False), "usize": (64, False), "u128": (128, False),
+            "i8": (8, True), "i16": (16, True), "i32": (32, True), "i64": (64, True), "isize": (64, True), "i128": (128, True)}
+
+
 class BMap(HMap):
     """a BTreeMap: iteration in key order"""
+
+
+class LazySelf(dict):
+    """a struct value (`self` of a scenario) whose fields the scenario did not set read as the empty / zero value of their
+    type the first time they are touched: a field the analysed code has gained since the scenario was written (a new cache,
+    a new counter) starts the way its constructor would start it, instead of making the function unreadable"""
+
+
+def default_of_type(ty, what="?"):
+    t = str(ty or "").lstrip("&").replace("mut ", "").strip()
+    for wrap in ("alloc::rc::Rc<", "alloc::sync::Arc<", "core::cell::RefCell<", "core::cell::Cell<", "alloc::boxed::Box<"):
+        if t.startswith(wrap):
+            return default_of_type(t[len(wrap):-1], what)
+    if t == "bool":
+        return False
+    if t in ("u8", "u16", "u32", "u64", "u128", "usize", "i8", "i16", "i32", "i64", "i128", "isize"):
+        return 0
+    if t in ("f32", "f64"):
+        return 0.0
+    if t == "alloc::string::String":
+        return ""
+    if t.startswith("std::collections::hash::map::HashMap<"):
+        return HMap()
+    if t.startswith("alloc::collections::btree::map::BTreeMap<"):
+        return BMap()
+    if t.startswith("std::collections::hash::set::HashSet<") or t.startswith("alloc::collections::btree::set::BTreeSet<"):
+        return set()
+    if t.startswith("alloc::vec::Vec<") or t.startswith("alloc::collections::vec_deque::VecDeque<"):
+        return []
+    if t.startswith("core::option::Option<"):
+        return NONE
+    return Opaque(what)
 
 
 class Entry:
@@ -270,6 +306,10 @@ class Interp:
                 return max(lo, min(hi, int(v)))      # `as` saturates
             if isinstance(v, int) and not isinstance(v, bool) and ty in ("f64", "f32"):
                 return float(v)
+            if isinstance(v, int) and not isinstance(v, bool) and ty in INT_BITS:
+                bits, signed = INT_BITS[ty]
+                w = v & ((1 << bits) - 1)          # integer `as` truncates to the width of the target (two's complement)
+                return w - (1 << bits) if signed and w >= (1 << (bits - 1)) else w
             return v
         if k == "Un":
             if n["op"] == "*":
@@ -332,6 +372,9 @@ class Interp:
             base = self.ev(n["e"], env)
             if isinstance(base, dict):
                 if n["name"] in base:
+                    return base[n["name"]]
+                if isinstance(base, LazySelf):
+                    base[n["name"]] = default_of_type(n.get("ty"), render(n))
                     return base[n["name"]]
                 raise Undecided("no value for field %s" % render(n))
             if isinstance(base, tuple) and not isinstance(base, V) and n["name"].isdigit():
@@ -587,6 +630,8 @@ class Interp:
             return "true" if recv else "false"
         if m == "to_string" and not n["args"] and isinstance(recv, float):
             return rust_float_str(recv)
+        if isinstance(recv, str) and not n["args"] and m in ("is_ascii", "is_char_boundary_0"):
+            return recv.isascii()
         if isinstance(recv, str) and not n["args"] and m in ("to_lowercase", "to_ascii_lowercase", "to_uppercase", "to_ascii_uppercase", "trim", "is_empty", "len"):
             return {"to_lowercase": recv.lower, "to_ascii_lowercase": recv.lower, "to_uppercase": recv.upper, "to_ascii_uppercase": recv.upper,
                     "trim": recv.strip, "is_empty": lambda: recv == "", "len": lambda: len(recv.encode())}[m]()
@@ -842,7 +887,9 @@ class Interp:
                 return some(recv.args[0]) if present else NONE
             if m == "unwrap_or_default" and not n["args"] and present:
                 return recv.args[0]
-        if m in ("map", "and_then", "filter", "is_some_and", "map_or") and isinstance(recv, V) and recv.name in ("Option::Some", "Option::None"):
+        if m in ("map", "and_then", "filter", "is_some_and", "is_none_or", "map_or") and isinstance(recv, V) and recv.name in ("Option::Some", "Option::None"):
+            if m == "is_none_or":
+                return True if recv == NONE else self._bool(self.apply(self.ev(n["args"][0], env), [recv.args[0]]), n)
             if m == "map_or":
                 d = self.ev(n["args"][0], env)
                 return d if recv == NONE else self.apply(self.ev(n["args"][1], env), [recv.args[0]])
